@@ -355,6 +355,15 @@ func main() {
 				dump.Line(string(b))
 			}
 			out.Line(process(e, st))
+			// malformed stream: one damaged copy of every fourth document (model correspondence only)
+			if i%4 == 0 {
+				if m, kind := mutate(r, s, c); m != nil {
+					em := buildEntry(r, id+"m", s, sdl, ssexp, nil, m, false)
+					em.Flags = []string{"malformed", kind}
+					st.kinds["malformed:"+kind]++
+					out.Line(process(em, st))
+				}
+			}
 			// the variant is a case of its own too
 			if e.Query2 != "" {
 				e2 := &entry{ID: id + "v", SDL: sdl, Schema: ssexp, Universes: unis, Query: e.Query2, Op: e.Op, Vars: e.Vars2, Flags: append(append([]string{"variant"}, e.Kinds...), e.Flags...)}
@@ -405,6 +414,32 @@ func main() {
 			}
 			trace(&e)
 		}
+	case "mkentry":
+		// build a corpus line from hand-written pieces: -sdl FILE -q QUERY [-v VARS] [-op NAME] -u UNIVERSE-SEXP -id ID [-q2 .. -v2 .. -kinds a,b] [-flags a,b]
+		sdl, err := os.ReadFile(a["sdl"])
+		if err != nil {
+			panic(err)
+		}
+		sc, err := x.SchemaFromSDL(string(sdl))
+		if err != nil {
+			panic(err)
+		}
+		e := &entry{ID: a["id"], SDL: string(sdl), Schema: sc.Sexp(), Universes: []string{a["u"]}, Query: a["q"], Op: a["op"]}
+		if v, ok := a["v"]; ok {
+			e.Vars = &v
+		}
+		if q2, ok := a["q2"]; ok {
+			e.Query2 = q2
+			if v2, ok := a["v2"]; ok {
+				e.Vars2 = &v2
+			}
+			e.Kinds = strings.Split(a["kinds"], ",")
+		}
+		if f, ok := a["flags"]; ok {
+			e.Flags = strings.Split(f, ",")
+		}
+		b, _ := json.Marshal(e)
+		fmt.Println(string(b))
 	case "adhoc":
 		sdl, err := os.ReadFile(a["sdl"])
 		if err != nil {
